@@ -59,6 +59,10 @@ func (p Params) Validate() error {
 	if p.TotalBlocksPerYear <= 0 {
 		return fmt.Errorf("total blocks per year cannot be negative or zero")
 	}
+	// every consumer converts the value with int64(...): a value above MaxInt64 would turn negative there
+	if p.TotalBlocksPerYear > 1<<63-1 {
+		return fmt.Errorf("total blocks per year is too large")
+	}
 
 	if p.RewardsDataLifetime <= 0 {
 		return fmt.Errorf("rewards data lifetime cannot be negative or zero")
